@@ -696,6 +696,48 @@ func (c *Ctx) c09File(pm *pairModel) {
 				}
 			}
 		})
+		// read-modify-write atomicity: the mbox is a fresh object per call that caches the index
+		// it loaded; if the lock is released between a call that can load the index and a
+		// later call that can write it, a concurrent operation's update is overwritten
+		var loaders, writers []ssa.Instruction
+		eng.EachInstr(fn, func(in ssa.Instruction) {
+			call, ok := in.(*ssa.Call)
+			if !ok {
+				return
+			}
+			g := eng.StaticCallee(call.Common())
+			if !isMboxMethod(g) {
+				return
+			}
+			if reachesNamed(g, "readIndex") {
+				loaders = append(loaders, in)
+			}
+			if reachesNamed(g, "writeIndex") {
+				writers = append(writers, in)
+			}
+		})
+		for _, ld := range loaders {
+			for _, wr := range writers {
+				if ld == wr || !eng.Dominates(ld, wr) {
+					continue
+				}
+				// a release reachable from ld (before wr) from which wr is reachable
+				var rels []ssa.Instruction
+				(&eng.Search{Target: func(in ssa.Instruction) bool {
+					if ops.isRel(in) {
+						if _, isRD := in.(*ssa.RunDefers); !isRD {
+							rels = append(rels, in)
+						}
+					}
+					return false
+				}, Avoid: func(in ssa.Instruction) bool { return in == wr }}).After(ld)
+				for _, rl := range rels {
+					if (&eng.Search{Target: func(in ssa.Instruction) bool { return in == wr }}).After(rl) != nil {
+						problems = append(problems, "the bucket lock is released at "+p.InstrPos(rl)+" between loading the index ("+p.InstrPos(ld)+") and writing it back ("+p.InstrPos(wr)+"): two overlapping operations on one mailbox both succeed but one update is lost")
+					}
+				}
+			}
+		}
 		if len(problems) > 0 {
 			r.Bad("C09/GUARD/file", shortFn(fn), p.Pos(fn.Pos()), "%s", strings.Join(problems, "; "))
 		} else {
@@ -793,4 +835,29 @@ func (c *Ctx) c09El(pm *pairModel) {
 		})
 	}
 	r.Floor("C09/NIL/el", "uses of Message.el as a container/list argument", n, 1)
+}
+
+// reachesNamed: fn is, or synchronously reaches, a function of its own package with that name.
+func reachesNamed(fn *ssa.Function, name string) bool {
+	seen := map[*ssa.Function]bool{}
+	var walk func(f *ssa.Function) bool
+	walk = func(f *ssa.Function) bool {
+		if f == nil || seen[f] || !eng.InModule(f) {
+			return false
+		}
+		seen[f] = true
+		if f.Name() == name && eng.FuncPkgPath(f) == eng.FuncPkgPath(fn) {
+			return true
+		}
+		hit := false
+		eng.EachInstr(f, func(in ssa.Instruction) {
+			if call, ok := in.(*ssa.Call); ok {
+				if walk(eng.StaticCallee(call.Common())) {
+					hit = true
+				}
+			}
+		})
+		return hit
+	}
+	return walk(fn)
 }
